@@ -153,10 +153,8 @@ def _load_v2(stream: InventoryFileReader, base_url: str | None) -> InventoryType
             #
             # Note: To avoid the regex DoS, this is implemented in python (refs: #8175)
             continue
-        if (
-            type == "py:module"
-            and type in invdata["objects"]
-            and name in invdata["objects"][type]
+        if type == "py:module" and name in invdata["objects"].get("py", {}).get(
+            "module", {}
         ):
             # due to a bug in 1.1 and below,
             # two inventory entries are created
